@@ -53,7 +53,17 @@ Definition check_c01 (su : SourceUnit) (wall : list (N * N * N)) (wsub : list N)
         (map (fun k => map fp (extract_targets_from_node (filter (subset_sel k) all_targets) root)) [0; 1; 2; 3])
         wsets then [] else [3]) ++
   (if list_eqb N.eqb (map (fun t => len (extract_target_from_node t root)) all_targets) wsingle then [] else [4]) ++
-  (if list_eqb fp_eqb (map fp_spec (pre root)) wall then [] else [11]).
+  (if list_eqb fp_eqb (map fp_spec (pre root)) wall then [] else [11]) ++
+  (* the specification for the other entry points, evaluated on the implementation's output as well:
+     12 the full walk from every node is that node's complete pre-order (sizes)
+     13 a target subset selects exactly the nodes of those kinds, in pre-order
+     14 a single target selects exactly the nodes of that kind (counts) *)
+  (if list_eqb N.eqb (map (fun n => len (pre n)) (pre root)) wsub then [] else [12]) ++
+  (if list_eqb (list_eqb fp_eqb)
+        (map (fun k => map fp_spec (filter (fun n => subset_sel k (kind_of n)) (pre root))) [0; 1; 2; 3])
+        wsets then [] else [13]) ++
+  (if list_eqb N.eqb (map (fun t => len (filter (fun n => Target_eqb (kind_of n) t) (pre root))) all_targets) wsingle
+   then [] else [14]).
 
 (* statistics for the evidence: nodes in the complete pre-order, distinct kinds present *)
 Definition stats_c01 (su : SourceUnit) : N * N :=
